@@ -53,6 +53,48 @@ CHECKS = {
         note="ASCII + placeholder alphabet (TLC strings); no token-level lexer model yet: the invariants are evaluated on observed tokens",
         ref="DESIGN.md section 6 C17",
     ),
+    "C07": dict(
+        engine="LiquidSem",
+        technique="TLC invariant RenderIsolated (two-way non-interference) on the reference + S->C replay of the scopes and lambda focuses "
+                  "+ scope-stack discipline observed on a caller-owned RenderContext",
+        text="TLC checks for every program of the scopes focus (assign/capture/counters/for/with/macro+call/include/render with/for/as/kwargs "
+             "over a shared name pool, errors raised inside blocks) that a top-level render contributes what it renders alone and leaves the "
+             "rest of the caller's output unchanged; every behaviour (and the lambda focus: arrow-function parameters shadowing an outer name) "
+             "is rendered by the library and must equal the model; scope.size()/loops/template of a caller-owned context are equal before and "
+             "after render_with_context returns or raises",
+        note="bounded pools (spec/MC_Scopes.tla, MC_Lambda.tla); abandoned generators rely on CPython refcounting",
+        ref="DESIGN.md section 6 C07",
+    ),
+    "C10": dict(
+        engine="LiquidSem",
+        technique="TLC enumeration of every subset of namespace layers binding one name (MC_Layers) replayed into the library; deep "
+                  "equality of caller data before/after every replay of the confused/loops/scopes/flow inputs",
+        text="all 16 subsets of the four global layers x counter/local/capture x block scopes (with, nested with, for, include/render "
+             "arguments) for the names x, now, today: the value printed inside and after the block must be the one LiquidSem!Resolve gives; "
+             "every filter over every container (incl. nan/inf/huge ints) is rendered on a deep copy handed over through each layer in turn "
+             "and the data must be unchanged",
+        note="clock replaced by a fixed double for now/today; JSON-like data only",
+        ref="DESIGN.md section 6 C10",
+    ),
+    "C12": dict(
+        engine="LiquidSrc",
+        technique="programs enumerated by TLC (LiquidSrc = specification of valid text per AST) round-tripped through str()/parse and pickle in the library",
+        text="for every program of the exprs, sites, flow, loops, scopes, bool, confused and whitespace-marker focuses: parse(str(t)) must "
+             "succeed and render like t on every data set of the focus, str must be stable after one round trip (or the third parse still "
+             "behaves the same), and pickle round trips behave the same",
+        note="behaviour compared library-vs-library on the focus data (branch-covering by construction of the pools)",
+        ref="DESIGN.md section 6 C12",
+    ),
+    "C16": dict(
+        engine="LiquidSem",
+        technique="TLC: default-policy result + touch-mode result per program (PolicyIrrelevantWithoutTouch on the reference); library rendered "
+                  "under Undefined/StrictUndefined/FalsyStrictUndefined and compared relationally",
+        text="undef focus (every flow site x data with any subset of variables/properties deleted), flow and bool focuses: default never raises "
+             "UndefinedError and equals the model; a strict/falsy-strict success equals the default output; UndefinedError under a strict policy "
+             "only if the model's run touched an undefined (eager one-sided reading of 'uses')",
+        note="band oracle for clause (c); bounded pools",
+        ref="DESIGN.md section 6 C16",
+    ),
     "C14": dict(
         engine="LiquidCache",
         technique="TLA+ model of the caching loaders (LiquidCache.tla) checked by TLC; every bounded history "
